@@ -1092,3 +1092,34 @@ pub fn g_ep_terminal(rng: &mut Rng) -> Option<(Pos, String)> {
     }
     None
 }
+
+
+/// En-passant studies in which the en-passant capture itself is checkmate (by the capturing pawn, or by a
+/// line the two vanishing pawns open). With extra attacking material for the capturing side other moves often
+/// force mate a little later — the en-passant mate in one must still be the answer.
+pub fn g_ep_mate(rng: &mut Rng) -> Option<Pos> {
+    for _ in 0..40_000 {
+        let mut p = g_ep(rng);
+        // more attackers for the side to move
+        for _ in 0..rng.below(4) {
+            let k = *rng.pick(&[Q, R, R, B, N]);
+            let s = random_empty(&p, rng);
+            if s != p.ep {
+                p.sq[s as usize] = pc(p.stm, k);
+            }
+        }
+        if p.validity().is_err() || p.in_check() {
+            continue;
+        }
+        let mates = p.legal_moves().into_iter().any(|m| {
+            m.kind == MvKind::EnPassant && {
+                let n = p.make(&m);
+                n.in_check() && n.legal_moves().is_empty()
+            }
+        });
+        if mates {
+            return Some(p);
+        }
+    }
+    None
+}
